@@ -187,7 +187,72 @@ pub fn run(ctx: &Ctx) {
     );
 }
 
+// ------------------------------------------------------------------------------------------------
+// the same isolation statement for the parallel analyzers: a worker pool is an analyzer instance too
+// ------------------------------------------------------------------------------------------------
+pub fn check_pool(c: &crate::props::c10::ParCase, st: &mut Stats) -> Result<(), Fail> {
+    use crate::pool::{run_pool, PoolCfg, PoolKind};
+    let kind = [PoolKind::Tcp, PoolKind::Http, PoolKind::Tls][(c.kind % 3) as usize];
+    let pk = c.trace.interleaved();
+    let frames: Vec<Vec<u8>> = pk.iter().map(|p| p.frame.clone()).collect();
+    let mut clock: std::collections::HashMap<u32, u64> = std::collections::HashMap::new();
+    for p in &pk {
+        if let Some(v) = p.tsval {
+            clock.insert(v, p.at);
+        }
+    }
+    let workers = 2 + (c.workers % 9) as usize;
+    // the configured capacity holds every connection of the trace even if all of them reach one worker
+    let n_conn = c.trace.conns.len().max(1);
+    let max_conn = if kind == PoolKind::Http { n_conn } else { 4 * n_conn };
+    let cfg = PoolCfg { workers, queue: frames.len() + 16, batch: 1 + (c.batch % 64) as usize, timeout_ms: 1 + (c.timeout_ms % 20) as u64, dispatchers: 1, perturb: Some(c.perturb), max_sleep_us: 100, max_conn };
+    let run = run_pool(kind, &frames, &cfg, None, Some(clock)).map_err(|e| fail!("pool:new", "{e}"))?;
+    if let Some(p) = &run.worker_panic {
+        return Err(Fail::new(format!("{:?}-pool:worker-{}", kind, crate::engine::panic_key(p)), format!("a worker thread panicked: {p}")));
+    }
+    if run.drain_timeout || (kind != PoolKind::Tls && run.queued.iter().any(|q| !*q)) {
+        st.discards += 1;
+        return Ok(());
+    }
+    let mut expected: Vec<String> = c.trace.per_conn().iter().flat_map(|pk| crate::props::c10::sequential(kind, pk)).map(|(_, r)| r).collect();
+    let mut got: Vec<String> = run.results.iter().map(|(_, r)| r.clone()).collect();
+    expected.sort();
+    got.sort();
+    if expected.len() >= 2 && c.trace.conns.len() >= 2 {
+        st.nontrivial(c);
+    }
+    st.class(&format!("{:?}-pool", kind));
+    if expected != got {
+        let missing = expected.iter().find(|x| !got.contains(x));
+        let extra = got.iter().find(|x| !expected.contains(x));
+        let what = if missing.is_some() && extra.is_none() { "result-suppressed-by-other-traffic" } else if missing.is_none() { "result-appears-only-with-other-traffic" } else { "result-altered-by-other-traffic" };
+        return Err(fail!(format!("{:?}-pool:{what}", kind), "workers {workers} capacity {max_conn} connections {n_conn}: alone {} results, in the pool {}\nmissing {}\nextra   {}", expected.len(), got.len(), truncate(&format!("{:?}", missing), 500), truncate(&format!("{:?}", extra), 500)));
+    }
+    Ok(())
+}
+
+pub fn run_pool_isolation(ctx: &Ctx) {
+    ctx.shrink_iters.store(25, std::sync::atomic::Ordering::Relaxed);
+    let n = ctx.tier.pick(3_000, 50_000);
+    ctx.run_prop(
+        "pool-vs-isolated",
+        "the trace generator of C10 (1..8 interleaved connections) through the TCP / HTTP / TLS worker pools (2..10 workers, seeded schedule perturbation) whose configured capacity holds exactly the connections of the trace (HTTP: one entry per connection; TCP / TLS: four); oracle: the multiset of results equals the union of the results each connection yields alone on a fresh sequential analyzer; non-trivial: >= 2 connections and >= 2 results",
+        n,
+        crate::props::c10::par_case,
+        |c: &crate::props::c10::ParCase, st: &mut Stats| {
+            st.sample(|| json!({"kind": c.kind % 3, "workers": 2 + c.workers % 9, "connections": c.trace.conns.len()}));
+            check_pool(c, st)
+        },
+    );
+    ctx.shrink_iters.store(1200, std::sync::atomic::Ordering::Relaxed);
+}
+
 pub fn replay(_ctx: &Ctx, _sub: &str, input: &serde_json::Value) -> Result<(), Fail> {
+    if _sub == "pool-vs-isolated" {
+        let c: crate::props::c10::ParCase = serde_json::from_value(input["value"].clone()).map_err(|e| fail!("bad-replay", "{e}"))?;
+        let mut st = Stats::new();
+        return check_pool(&c, &mut st);
+    }
     let c: TraceCase = serde_json::from_value(input["value"].clone()).map_err(|e| fail!("bad-replay", "{e}"))?;
     let mut st = Stats::new();
     check(&c, &mut st)
